@@ -89,21 +89,23 @@ theorem addAllModules_map (mods : List Str) (hpm : ∀ m ∈ mods, parentModules
     rw [createNode_map φ hφ, hpm m (by simp), addHierarchy_map φ hφ]
     exact ih (fun x hx => hpm x (by simp [hx])) _
 
-theorem addImport_map (g : PGraph Str) (i : ImportRec)
+theorem addImport_map (known known' : List Str) (g : PGraph Str) (i : ImportRec)
     (hp : parentModules (φ i.importer) = (parentModules i.importer).map φ) :
-    addImport none (mapGraph φ g) (mapImp φ i) = mapGraph φ (addImport none g i) := by
-  simp only [addImport, mapImp, createEdge_map φ hφ, hp, addHierarchy_map φ hφ]
+    addImport none known' (mapGraph φ g) (mapImp φ i) = mapGraph φ (addImport none known g i) := by
+  simp only [addImport, skipImportEdge, Option.isSome, Bool.false_and, Bool.false_eq_true, if_false,
+    mapImp, createEdge_map φ hφ, hp, addHierarchy_map φ hφ]
   have : i.importeeParents.map φ ++ [φ i.importee] = (i.importeeParents ++ [i.importee]).map φ := by simp
   rw [this, BuildNames.consecutive_map, edgeFold_map φ hφ]
 
-theorem importFold_map (imports : List ImportRec)
+theorem importFold_map (known known' : List Str) (imports : List ImportRec)
     (hpi : ∀ i ∈ imports, parentModules (φ i.importer) = (parentModules i.importer).map φ) (g : PGraph Str) :
-    (imports.map (mapImp φ)).foldl (addImport none) (mapGraph φ g) = mapGraph φ (imports.foldl (addImport none) g) := by
+    (imports.map (mapImp φ)).foldl (addImport none known') (mapGraph φ g) =
+      mapGraph φ (imports.foldl (addImport none known) g) := by
   induction imports generalizing g with
   | nil => rfl
   | cons i is ih =>
     simp only [List.map_cons, List.foldl_cons]
-    rw [addImport_map φ hφ g i (hpi i (by simp))]
+    rw [addImport_map φ hφ known known' g i (hpi i (by simp))]
     exact ih (fun x hx => hpi x (by simp [hx])) _
 
 theorem buildGraph_map (mods : List Str) (imports : List ImportRec)
@@ -113,7 +115,7 @@ theorem buildGraph_map (mods : List Str) (imports : List ImportRec)
   unfold buildGraph
   have h0 : addAllModules none PGraph.empty (mods.map φ) = mapGraph φ (addAllModules none PGraph.empty mods) :=
     addAllModules_map φ hφ mods hpm PGraph.empty
-  rw [h0, importFold_map φ hφ imports hpi]
+  rw [h0, importFold_map φ hφ _ _ imports hpi]
 
 end Build
 
